@@ -557,6 +557,38 @@ func replayObligation(p *Program, w *World, o *Obligation, replayPath, outDir st
 		rec["outcome"] = outcome
 		writeJSON(replayPath, rec)
 	}()
+	// scenario replays: obligations whose counterexample needs a scripted environment (a fake IdP,
+	// a minted token) name a fixed scenario test; it is run against the current tree.
+	if sc := findScenario(o.Name); sc != nil {
+		rec["scenario"] = sc.What
+		rec["scenario_test"] = sc.File
+		src, rerr := os.ReadFile(filepath.Join(verifDir, "replay", "scenarios", sc.File))
+		if rerr == nil {
+			var out string
+			var terr error
+			if c, ok := scenarioCache[sc.Run]; ok {
+				out = c
+			} else {
+				out, terr = runOverlayFile(p, sc.Pkg, string(src), "^"+sc.Run+"$")
+				scenarioCache[sc.Run] = out
+			}
+			rec["go_test"] = string(src)
+			rec["go_test_pkg"] = sc.Pkg
+			rec["go_test_run"] = sc.Run
+			rec["go_test_output"] = trunc(out, 6000)
+			if terr != nil {
+				rec["go_test_error"] = terr.Error()
+			}
+			if strings.Contains(out, "GOVC-SCENARIO confirmed") {
+				outcome = "confirmed"
+				rec["confirmed_by"] = "scenario test on the real code: " + firstLineWith(out, "GOVC-SCENARIO confirmed")
+				return outcome
+			}
+			outcome = "not-reproduced"
+			return outcome
+		}
+		rec["note"] = "scenario file missing: " + rerr.Error()
+	}
 	e := o.Exec
 	if e == nil || e.curTop == nil || o.Kind == "lemma" || o.Kind == "cover" || o.Kind == "frame" {
 		rec["note"] = "no replay driver for this obligation kind"
@@ -738,6 +770,67 @@ func lateDecls(o *Obligation) []string {
 	return out
 }
 
+var scenarioCache = map[string]string{}
+
+type scenario struct {
+	Match string `json:"match"`
+	Pkg   string `json:"pkg"`
+	File  string `json:"file"`
+	Run   string `json:"run"`
+	What  string `json:"what"`
+}
+
+func findScenario(obl string) *scenario {
+	b, err := os.ReadFile(filepath.Join(verifDir, "replay", "scenarios", "scenarios.json"))
+	if err != nil {
+		return nil
+	}
+	var scs []scenario
+	if json.Unmarshal(b, &scs) != nil {
+		return nil
+	}
+	for i := range scs {
+		if strings.HasPrefix(obl, scs[i].Match) {
+			return &scs[i]
+		}
+	}
+	return nil
+}
+
+func firstLineWith(out, needle string) string {
+	for _, l := range strings.Split(out, "\n") {
+		if strings.Contains(l, needle) {
+			return strings.TrimSpace(l)
+		}
+	}
+	return ""
+}
+
+// runOverlayFile injects a test file into package dir rel (relative to the repo root).
+func runOverlayFile(p *Program, rel, test, runPat string) (string, error) {
+	dir, err := os.MkdirTemp("", "govc-replay-")
+	if err != nil {
+		return "", err
+	}
+	defer os.RemoveAll(dir)
+	testFile := filepath.Join(dir, "zz_govc_replay_test.go")
+	os.WriteFile(testFile, []byte(test), 0o644)
+	ov := map[string]map[string]string{"Replace": {filepath.Join(p.RepoDir, rel, "zz_govc_replay_test.go"): testFile}}
+	ob, _ := json.Marshal(ov)
+	ovFile := filepath.Join(dir, "overlay.json")
+	os.WriteFile(ovFile, ob, 0o644)
+	ctx, cancel := context.WithTimeout(context.Background(), 240*time.Second)
+	defer cancel()
+	cmd := exec.CommandContext(ctx, "go", "test", "-overlay", ovFile, "-vet=off", "-count=1", "-timeout", "60s", "-run", runPat, "-v", "./"+rel)
+	cmd.Dir = p.RepoDir
+	cmd.Env = append(os.Environ(), "GOFLAGS=-mod=mod", "GOPROXY=off")
+	var out bytes.Buffer
+	cmd.Stdout = &out
+	cmd.Stderr = &out
+	err = cmd.Run()
+	return out.String(), err
+}
+
 func (e *Exec) usesAbstract() []string {
 	var out []string
 	for a := range e.Assumptions {
@@ -908,6 +1001,19 @@ func cmdReplay(args []string) int {
 	}
 	fmt.Printf("obligation: %v\nclause: %v\noutcome recorded: %v\n", rec["obligation"], rec["clause"], rec["outcome"])
 	test, _ := rec["go_test"].(string)
+	if pkg, ok := rec["go_test_pkg"].(string); ok && test != "" {
+		p, err := loadProgram("/repo")
+		if err != nil {
+			fmt.Println(err)
+			return 2
+		}
+		out, _ := runOverlayFile(p, pkg, test, "^"+fmt.Sprint(rec["go_test_run"])+"$")
+		fmt.Println(out)
+		if strings.Contains(out, "GOVC-SCENARIO confirmed") {
+			return 1
+		}
+		return 0
+	}
 	if test == "" {
 		fmt.Println("no replayable Go test recorded (", rec["note"], ")")
 		fmt.Println(rec["verifier_output"])
